@@ -123,7 +123,8 @@ def concat_chars(tokens):
             out.append({"type": t["type"], "name": t["name"], "namespace": t["namespace"], "data": list(t["data"].items())})
         elif t["type"] == "Doctype":
             # a doctype name can never be the empty string: "" and None both mean "missing" (minidom stores None)
-            out.append({"type": "Doctype", "name": t["name"] or "", "publicId": t["publicId"] or "", "systemId": t["systemId"] or ""})
+            # identifiers are compared as they are: a present-but-empty identifier ("") is not a missing one (None)
+            out.append({"type": "Doctype", "name": t["name"] or "", "publicId": t["publicId"], "systemId": t["systemId"]})
         else:
             out.append(dict(t))
     return out
@@ -261,6 +262,27 @@ def check_case(case):
                                % (k, short(theirs[k:k + 1], 80), short(ours[k:k + 1], 80), builder, label, short(text, 150)), "concatenate-differs", nontrivial=True, classes=classes)
             if label in ("document", "fragment"):
                 streams[builder] = (toks, want)
+    if "etree" in streams:
+        # the etree walker for another ElementTree implementation (getTreeWalker('etree', implementation=X)), requested after the
+        # default one: the same document gives the same stream whichever implementation holds the tree
+        try:
+            import html5lib
+            from html5lib import treebuilders, treewalkers
+            A = h5.alt_etree()
+            treewalkers.getTreeWalker("etree")
+            tb = treebuilders.getTreeBuilder("etree", implementation=A, fullTree=True)
+            pa = html5lib.HTMLParser(tb, namespaceHTMLElements=bool(case.get("namespace", True)))
+            ra = pa.parse(text, scripting=scripting) if doc else pa.parseFragment(text, container=container, scripting=scripting)
+            ta = list(treewalkers.getTreeWalker("etree", implementation=A)(ra))
+        except Exception as e:
+            return Verdict("fail", "etree builder/walker with implementation=<pure-Python ElementTree> raised %s: %s; input %s container=%r"
+                           % (type(e).__name__, short(str(e), 100), short(text, 160), container), "alt-implementation-exception:" + type(e).__name__, nontrivial=True, classes=classes)
+        if ta != streams["etree"][0]:
+            te = streams["etree"][0]
+            k = next((i for i, (a, b) in enumerate(zip(ta, te)) if a != b), min(len(ta), len(te)))
+            return Verdict("fail", "the etree walker's stream depends on the ElementTree implementation: token %d is %s with the pure-Python implementation, %s with the default; input %s"
+                           % (k, short(ta[k:k + 1], 100), short(te[k:k + 1], 100), short(text, 160)), "alt-implementation-differs", nontrivial=True, classes=classes)
+        classes.append("alt-implementation")
     if "etree" in streams and "dom" in streams:
         (te, we), (td, wd) = streams["etree"], streams["dom"]
         if obs.clarkify(we) == obs.clarkify(wd):
